@@ -47,6 +47,17 @@ CLAIMED = {
         note="As C01. Partial: the facade/marshaller refusals are decided by exhaustive scenario probes of the implementation, not yet by a "
              "theorem about a model (see C13/C05).",
         technique="Coq proof by reflection over a regenerated constructor IR + implementation scenario probes"),
+    "C07": dict(
+        text="Machine-checked statements (Coq) about the status dispatch of ISCSIDevice.execute and the CheckConditionError handler of "
+             "SCSIDevice.execute, both REGENERATED from the source on every run: complete enumeration inside the kernel over all 256 status "
+             "bytes x raw-sense on/off x (no / stale) cached sense, lifted to every history of executions incl. re-used command objects by "
+             "induction (returns normally only for GOOD; CHECK CONDITION raises CheckCondition with THIS execution's sense or, only when "
+             "asked, attaches the raw sense; each other status raises its named error). The semantics of the small act language is tied to "
+             "the real device classes over stub bindings by a 1500-history correspondence run (all 256 statuses exhaustively).",
+        ref="DESIGN.md §4 C07",
+        note="Partial: the behaviour of the real sgio/iscsi C bindings is the stated contract (the stubs implement exactly it); the facade's "
+             "pass-through of the error is covered by the facade model of C13.",
+        technique="Coq: kernel enumeration over a regenerated program + induction over histories + vm_compute correspondence"),
     "C10": dict(
         text="Machine-checked proof (Coq 8.16.1) of the codec laws for every buffer size, every contiguous mask at any "
              "alignment, every offset, every in-range value, every field order and arbitrary prior contents "
